@@ -350,7 +350,7 @@ func enumHelpers(c *hl.Ctx) {
 }
 
 func run(c *hl.Ctx) {
-	c.Rule("per decoder entry point: every byte string of length <= 2 (thorough 3; cheap decoders); for every seed (valid encodings produced by the reference models and the library's own encoders): every truncation prefix, every single-position substitution by {00,01,7f,80,ff} and all 256 values in the first 12 positions; structured families (RTMP: every sequence of up to 3 (thorough 4) chunk headers over 54 header shapes - all four header formats, two chunk streams, lengths around the chunk size, extended timestamps, Set Chunk Size messages - legal and illegal transitions alike); pumped families 256 B .. 64 KiB with the cost measured in instrumented steps (function entries, loop iterations, weighted bytes/strings/copy calls; deterministic); every value of every enum helper via reflection. Violation = recovered panic, step horizon exceeded, real-time watchdog (120 s), step count growing faster than linearly, or declared-size allocations (every make(T, n) / Grow(n) in the instrumented packages is accounted before it happens) above 48 MiB + 256 elements per input byte in one call. Non-trivial = distinct (decoder, input) evaluated.")
+	c.Rule("per decoder entry point: every byte string of length <= 2 (thorough 3; cheap decoders); for every seed (valid encodings produced by the reference models and the library's own encoders): every truncation prefix, every single-position substitution by {00,01,7f,80,ff} and all 256 values in the first 12 positions; structured families (RTMP: every sequence of up to 3 (thorough 4) chunk headers over 54 header shapes - all four header formats, two chunk streams, lengths around the chunk size, extended timestamps, Set Chunk Size messages - legal and illegal transitions alike; FLV tag bodies: every pair of leading bytes x every length 2..9); pumped families 256 B .. 64 KiB with the cost measured in instrumented steps (function entries, loop iterations, weighted bytes/strings/copy calls; deterministic); every value of every enum helper via reflection. Violation = recovered panic, step horizon exceeded, real-time watchdog (120 s), step count growing faster than linearly, or declared-size allocations (every make(T, n) / Grow(n) in the instrumented packages is accounted before it happens) above 48 MiB + 256 elements per input byte in one call. Non-trivial = distinct (decoder, input) evaluated.")
 	c.Assume("time inside the Go standard library (asn1, flate, big, json) is not counted in steps", "the websocket reader's deliberate panic after 1000 reads of a failed connection is API-misuse signalling and not reachable by a harness that stops at the first error", "inputs above 64 KiB and coverage-guided/random inputs are replaced by the exhaustive families named in the rule")
 	c.StartWatchdog(120 * time.Second)
 	e := &engine{c: c}
